@@ -5,7 +5,8 @@ subsets of size <=2 (thorough <=3) of the keyword parameters of the underlying f
 non-default value) plus an unrelated keyword.  Oracle: a bundle table written from the docstrings - key set and
 order, real scalar values, and each value bit-identical to the corresponding public function called directly on
 the documented pre-processing of the same inputs with the documented forced parameter; other keywords are
-forwarded iff the callee's signature (inspect.signature, not util.filter_kwargs) accepts them.
+forwarded iff the callee's signature (inspect.signature, not util.filter_kwargs) accepts them.  Second space: the
+same oracle after one other task's evaluate() ran first (all ordered pairs of tasks), from a restored module state.
 """
 import collections
 import inspect
@@ -415,9 +416,11 @@ def is_real_scalar(v):
     return False
 
 
-def check_bundle(acc, task, phase, idx, kw):
+def check_bundle(acc, task, phase, idx, kw, prev=None):
     makers = panels(phase)[task][idx]
     case = {"kind": "bundle", "task": task, "phase": phase, "panel": idx, "kw": kw}
+    if prev is not None:
+        case = {"kind": "after", "prev": prev, "task": task, "phase": phase, "panel": idx, "kw": kw}
     site = "%s.evaluate" % task
     with warnings.catch_warnings():
         warnings.simplefilter("ignore")
@@ -478,7 +481,87 @@ def shard(arg):
     return acc
 
 
+# ------------------------------------------------------------------------------------------ bundles after a history
+# "Start from non-initial states": the same bundle oracle after ONE other task's evaluate() has run in the process
+# (forwarding helpers shared between the task modules - util.filter_kwargs - must not remember the previous callee).
+# Every history starts from the module state as imported: module-level containers are restored and functools caches
+# cleared, so a verdict never depends on which shard ran before in this worker.
+_MODS = [alignment, beat, chord, hierarchy, key, melody, multipitch, onset, pattern, segment, tempo, transcription,
+         transcription_velocity, util]
+
+
+def _snapshot():
+    import copy
+    return {(m, n): copy.deepcopy(v) for m in _MODS for n, v in list(vars(m).items())
+            if not n.startswith("__") and isinstance(v, (dict, list, set))}
+
+
+_SNAP = _snapshot()
+
+
+def _reset_modules():
+    import copy
+    for m in _MODS:
+        for n, v in list(vars(m).items()):
+            if n.startswith("__"):
+                continue
+            if isinstance(v, (dict, list, set)):
+                if (m, n) not in _SNAP:
+                    delattr(m, n)
+                    continue
+                if v != _SNAP[(m, n)]:
+                    v.clear()
+                    (v.extend if isinstance(v, list) else v.update)(copy.deepcopy(_SNAP[(m, n)]))
+            elif callable(getattr(v, "cache_clear", None)):
+                v.cache_clear()
+
+
+def run_prelude(prev, phase):
+    makers = panels(phase)[prev][-1]
+    with warnings.catch_warnings():
+        warnings.simplefilter("ignore")
+        try:
+            args = tuple(m() for m in makers)
+            if prev == "melody":
+                EVAL[prev](*args[:4], est_voicing=args[4], ref_reward=args[5])
+            else:
+                EVAL[prev](*args)
+        except Exception:  # noqa  (the prelude's own result is another state's business)
+            pass
+
+
+def kw_singletons(task):
+    return [{}] + [{k: v} for k, v in sorted(KW[task].items())]
+
+
+def shard_after(arg):
+    prev, phase, tier = arg
+    acc = core.Acc(PID)
+    pan = panels(phase)
+    for task in sorted(pan):
+        if task == prev:
+            continue
+        for idx in range(len(pan[task])):
+            for kw in kw_singletons(task):
+                acc.states += 1
+                acc.nontrivial += 1
+                case = {"kind": "after", "prev": prev, "task": task, "phase": phase, "panel": idx, "kw": kw}
+                acc.tick(case)
+                acc.counters["bundles_after_another_evaluate"] += 1
+                _reset_modules()
+                run_prelude(prev, phase)
+                acc.transitions += 1
+                check_bundle(acc, task, phase, idx, kw, prev=prev)
+    _reset_modules()
+    return acc
+
+
 def replay(case, acc):
+    if case.get("kind") == "after":
+        _reset_modules()
+        run_prelude(case["prev"], case["phase"])
+        check_bundle(acc, case["task"], case["phase"], case["panel"], case["kw"], prev=case["prev"])
+        return
     check_bundle(acc, case["task"], case["phase"], case["panel"], case["kw"])
 
 
@@ -498,3 +581,6 @@ def run(run):
         for i in range(len(pan[task])):
             shards.append((task, run.phase, run.tier, [i]))
     run.explore("evaluate bundles (13 tasks)", __name__, "shard", shards)
+    run.explore("bundles after one other task's evaluate() (13 x 12 ordered pairs, keyword subsets of size <= 1)",
+                __name__, "shard_after", [(prev, run.phase, run.tier) for prev in sorted(pan)])
+    run.require_nonvacuous("bundles_after_another_evaluate")
